@@ -99,8 +99,12 @@ class SubQueryLineageHolder(ColumnLineageMixin):
         self._property_setter(value, NodeTag.WRITE)
 
     @property
-    def cte(self) -> set[SubQuery]:
-        return self._property_getter(NodeTag.CTE)  # type: ignore
+    def cte(self) -> list[SubQuery]:  # type: ignore
+        # in the order of definition, not a set: a name defined again in a nested WITH shadows the outer definition,
+        # the name lookup lets the last one win
+        return [
+            t for t, attr in self.graph.nodes(data=True) if attr.get(NodeTag.CTE) is True
+        ]
 
     def add_cte(self, value) -> None:
         self._property_setter(value, NodeTag.CTE)
